@@ -13,7 +13,7 @@ RULE = ('L1: every single-clause predicate p(t1..tk) :- B, k<=2 over 14 head-arg
         'of <=2 [thorough: 3] clauses over p/1,q/1 with head argument in {X,a,b,f(X)} and body of <=1 goal '
         '[thorough, 2-clause programs: <=2 goals] over p|q x {X,Y,a,b,f(X)} (direct, mutual and left recursion, '
         'duplicate clauses), queries p(A) p(a) p(f(A)) q(A). L1b: every body of 2 or 3 [thorough: 4] goals over 10 goals whose outcome depends on WHEN they are called (callees using \\=, a cut, negation; explicit unifications). L2b: every sequence of 3 [thorough: 4] clauses of ONE predicate r/2 over 6 head shapes x 4 bodies (the same variable name as plain head argument, nested, repeated or body-only in different clauses). L3: append/member/len/nat/rev/in/path idioms over '
-        'every DAG on 3 nodes in every argument mode. L4: 6 templates with many anonymous variables (alone and combined in one program, so that the program-wide numbering of _ reaches 13) x EVERY injective naming of their two named variables from a menu of 44 names (_1.._14, look-alikes of the compiler\'s own argument, loop, flag and prefix names, Python constants). Each program is compiled, loaded into a fresh engine and '
+        'every DAG on 3 nodes in every argument mode. L4: 6 templates with many anonymous variables (alone and combined in one program, so that the program-wide numbering of _ reaches 13) x EVERY injective naming of their two named variables from a menu of 44 names (_1.._14, look-alikes of the compiler\'s own argument, loop, flag and prefix names, Python constants). L5: two activations of the same clause alive at once (two goals of one body, recursion over a list, caller and callee) over 11 term shapes whose variables are anonymous, named or mixed, in the head or in a body goal, queried with equal, different, aliased and unbound arguments. Each program is compiled, loaded into a fresh engine and '
         'every query is compared answer by answer (bindings up to renaming incl. aliasing, order, multiplicity, '
         'termination under a deterministic step budget, no exception) with RefProlog. states = distinct '
         'per-program outcome tuples; transitions = next() calls; non-trivial = some query has an answer')
@@ -321,6 +321,50 @@ def l4_cases():
                 idx += 1
 
 
+# ---------------------------------------------------------------- L5: simultaneous activations
+# "Every clause activation works on fresh variables": two activations of the SAME clause alive at
+# once (two goals of one body, a recursion, a clause used by caller and callee) over every term
+# shape whose variables are anonymous, named-once, or mixed - in a head argument or in a body goal.
+def l5_shapes():
+    an = lambda n: ('v', ('_', n))  # noqa: E731
+    return [an(1), F('f', an(1)), F('g', an(1), an(2)), L([an(1)], an(2)), L([an(1), an(2)]), F('f', F('g', an(1), A('k'))),
+            F('g', X, an(1)), F('g', Y, Y), F('f', Y), L([Y], an(1)), F('g', A('k'), an(1))]
+
+
+def l5_inst(shape, val):
+    """the shape with every variable (anonymous or named) replaced by val"""
+    if shape[0] == 'v':
+        return val
+    if shape[0] == 'f' and shape[1] == '.' and len(shape[2]) == 2 and shape[2][1][0] == 'v':
+        return ('f', '.', (l5_inst(shape[2][0], val), L([val])))    # a list tail stays a list
+    if shape[0] == 'f':
+        return ('f', shape[1], tuple(l5_inst(x, val) for x in shape[2]))
+    return shape
+
+
+def l5_cases():
+    a, b = A('a'), A('b')
+    Tl = V('Tl')
+    idx = 0
+    for si, s in enumerate(l5_shapes()):
+        ia, ib = l5_inst(s, a), l5_inst(s, b)
+        pairs = [(QA, QB), (ia, ib), (ia, ia), (QA, QA), (ia, QB), (QA, ib)]
+        progs = {
+            'head-twice': [(F('h', s), None), (F('both', V('P'), V('Q')), (',', call(F('h', V('P'))), call(F('h', V('Q')))))],
+            'body-twice': [(F('h', V('P')), call(F('=', V('P'), s))), (F('both', V('P'), V('Q')), (',', call(F('h', V('P'))), call(F('h', V('Q')))))],
+            'recursion': [(F('all', NIL), None), (F('all', L([s], Tl)), call(F('all', Tl))),
+                          (F('both', V('P'), V('Q')), call(F('all', L([V('P'), V('Q')]))))],
+            'recursion-body': [(F('all', NIL), None), (F('all', L([V('E')], Tl)), (',', call(F('=', V('E'), s)), call(F('all', Tl)))),
+                               (F('both', V('P'), V('Q')), call(F('all', L([V('P'), V('Q')]))))],
+            'caller-and-callee': [(F('h', s, A('z')), None),
+                                  (F('h', V('P'), F('s', V('N'))), (',', call(F('h', V('P'), V('N'))), call(F('h', V('Q2'), V('N'))))),
+                                  (F('both', V('P'), V('Q')), (',', call(F('h', V('P'), F('s', A('z')))), call(F('h', V('Q'), F('s', A('z'))))))],
+        }
+        for name, prog in progs.items():
+            yield idx, '%s:%d' % (name, si), prog, [F('both', p_, q_) for p_, q_ in pairs]
+            idx += 1
+
+
 # ---------------------------------------------------------------- plan / run
 NSH = 48
 
@@ -334,6 +378,7 @@ def plan(tier):
         sh += [('L2', k, 4 * NSH, 2, 2) for k in range(4 * NSH)]
     sh += [('L3', k, 8) for k in range(8)]
     sh += [('L4', k, NSH) for k in range(NSH)]
+    sh += [('L5', k, 8) for k in range(8)]
     sh += [('L2b', k, NSH, 3) for k in range(NSH)]
     sh += [('L1b', k, 16, 2) for k in range(16)] + [('L1b', k, NSH, 3) for k in range(NSH)]
     if not q:
@@ -395,6 +440,18 @@ def run_shard(spec):
             account(acc, ('L2b', ncl, idx), case, res, key=case.describe()['scripts'][1]['text'])
             if idx % 3001 == 0 and res['status'] == 'ok' and res['nontrivial']:
                 acc.sample({'layer': 'L2b', 'program': case.describe()['scripts'][1]['text']}, limit=1)
+    elif spec[0] == 'L5':
+        _, k, n = spec
+        for idx, name, prog, qs in l5_cases():
+            if idx % n != k:
+                continue
+            case = Case([(prog, True, False)], [], qs, repeat=2, budget=True)
+            res = case.run()
+            if res['status'] == 'violation':
+                res['sig'] = 'simultaneous-activations:' + res['sig']
+            account(acc, ('L5', idx), case, res, key=name)
+            if idx % 7 == 0 and res['status'] == 'ok':
+                acc.sample({'layer': 'L5', 'program': case.describe()['scripts'][0]['text'][:300]}, limit=1)
     elif spec[0] == 'L4':
         _, k, n = spec
         for idx, name, cl, qs, na, nb in l4_cases():
